@@ -1211,6 +1211,88 @@ func caseLinesOf(path string) []string {
 
 // ---------------------------------------------------------------- driver
 
+// timeSequences logs SEQUENCES of records whose times share one Unix second but differ in Location (and pairs one
+// nanosecond apart across a second boundary, the zero time, year 9999 / 10000), through one handler, through fresh
+// handlers and through derived handlers of one process: anything a handler remembers between records (a cached date,
+// a cached zone) shows up as a wrong "time" member. Every record is a case of its own; its oracle text is
+// t.AppendFormat(nil, RFC3339Nano) of ITS time. The same times also travel as slog.Time attribute values.
+func timeSequences(e *hk.Env) int {
+	zones := []*time.Location{
+		time.UTC, time.FixedZone("", 8*3600), time.FixedZone("", -(3*3600 + 1800)), time.FixedZone("", 5*3600+45*60),
+		time.FixedZone("", 14*3600), time.FixedZone("", -12*3600), time.FixedZone("LMT", 53*60+28), time.UTC,
+		time.FixedZone("", -(53*60 + 28)), time.FixedZone("", 1), time.UTC,
+	}
+	var seq []time.Time
+	for _, sec := range []int64{946782245, 1700000000, 0, -1, 1709210096, 253402300799, -62135596800, 4102444799} {
+		for i, z := range zones {
+			seq = append(seq, time.Unix(sec, int64(i)*111111111%1000000000).In(z))
+		}
+		// one nanosecond apart across the second boundary, zones alternating, and back
+		seq = append(seq, time.Unix(sec, 999999999).In(zones[1]), time.Unix(sec+1, 0).In(zones[2]), time.Unix(sec, 999999999).In(zones[3]),
+			time.Unix(sec+1, 0).UTC(), time.Unix(sec+1, 1).In(zones[6]))
+	}
+	seq = append(seq, time.Time{}, time.Time{}.In(zones[1]), time.Time{}.In(zones[2]), time.Time{},
+		time.Date(9999, 12, 31, 23, 59, 59, 999999999, time.UTC), time.Date(9999, 12, 31, 23, 59, 59, 999999999, time.UTC).In(zones[4]),
+		time.Date(9999, 12, 31, 23, 59, 59, 5, time.UTC).In(zones[5]), time.Date(9999, 12, 31, 23, 59, 59, 0, time.UTC))
+
+	n := 0
+	one := func(h logger.Handler, w *capW, chain []chainStep, t, other time.Time, lvl int) {
+		w.writes = nil
+		c := &caseOut{level: lvl, msg: "seq", file: "~", chain: chain}
+		func() {
+			defer func() {
+				if r := recover(); r != nil {
+					e.Count("panics", 1)
+				}
+			}()
+			rec := slog.NewRecord(t, levels[lvl], "seq", 0)
+			rec.AddAttrs(slog.Time("t", other), slog.Any("u", t), slog.Group("g", slog.Time("v", t)))
+			rec.Attrs(func(a slog.Attr) bool { c.attrs = append(c.attrs, walkAttr(a)); return true })
+			c.timeTx = string(t.AppendFormat(nil, time.RFC3339Nano))
+			h.Handle(context.Background(), rec)
+		}()
+		c.writes = w.writes
+		c.emit(e)
+		n++
+	}
+	opts := logger.NewOptions(logger.LevelDebug, false, false)
+	// (a) one handler for the whole sequence, forwards and backwards
+	wa := &capW{}
+	var ha logger.Handler = logger.NewJsonHandler(wa, opts)
+	for i, t := range seq {
+		one(ha, wa, nil, t, seq[(i+1)%len(seq)], i%5)
+	}
+	for i := len(seq) - 1; i >= 0; i-- {
+		one(ha, wa, nil, seq[i], seq[(i+3)%len(seq)], i%5)
+	}
+	// (b) a fresh handler per record (state shared by all handlers of the process)
+	for i, t := range seq {
+		wb := &capW{}
+		one(logger.NewJsonHandler(wb, opts), wb, nil, t, seq[(i+2)%len(seq)], i%5)
+	}
+	// (c) two derived handlers of one parent, alternating
+	wc := &capW{}
+	var hc logger.Handler = logger.NewJsonHandler(wc, opts)
+	a1 := []slog.Attr{slog.Time("w", seq[1])}
+	c1 := []chainStep{{isAt: true, attrs: a1, abs: walkAttrs(a1)}}
+	c2 := []chainStep{{group: "g"}}
+	h1, h2 := hc.WithAttrs(a1), hc.WithGroup("g")
+	for i, t := range seq {
+		if i%2 == 0 {
+			one(h1, wc, c1, t, seq[(i+5)%len(seq)], i%5)
+		} else {
+			one(h2, wc, c2, t, seq[(i+5)%len(seq)], i%5)
+		}
+	}
+	// (d) shuffled order
+	r := e.Rng.Fork()
+	for i := 0; i < 3*len(seq); i++ {
+		one(ha, wa, nil, seq[r.Intn(len(seq))], seq[r.Intn(len(seq))], i%5)
+	}
+	e.Stats["time_sequence_len"] = len(seq)
+	return n
+}
+
 // allPositions logs one record in which s occupies every position a string can occupy.
 func allPositions(e *hk.Env, s string, lvl int) *caseOut {
 	var chain []chainStep
@@ -1379,6 +1461,11 @@ func runC01(e *hk.Env) error {
 	}
 	e.Stats["long_string_cases"] = nlong
 	e.Stats["long_string_sizes"] = longHist
+
+	// 1c. sequences of records in one Unix second with different zone offsets
+	nseq := timeSequences(e)
+	ncases += nseq
+	e.Stats["time_sequence_cases"] = nseq
 
 	// 2. random trees x chains x levels x source, handler level and logger level
 	g := &gen{e.Rng.Fork()}
